@@ -52,7 +52,8 @@ RULE = ('pos: random programs over most statement/expression productions written
         'mutations (delete/duplicate/swap token, truncate, unterminated string/comment/phrase, insert/delete char) of '
         'generated programs; every fifth pos case with characters no rule matches (BOM, NUL, $, #, form feed, ...) in '
         'front of it / in front of tokens / behind it (positions w.r.t. the GIVEN text); strnl: a raw line break inside '
-        'a double-quoted string; long single tokens (4299..5500 digits / letters); '
+        'a double-quoted string; long single tokens (4299..5500 digits / letters); keywords in NAME positions '
+        '(kw_as_identifier_1..4: attribute / parameter / enumerator / variable names) and empty statements in pos programs; '
         'generated programs, weighted 70 % to mutations.  time: 23 adversarial families at growing lengths.')
 EXHAUSTIVE = {'quick': False, 'thorough': False}
 ASSUMPTIONS = [
@@ -309,7 +310,7 @@ def generate(ctx):
     # the production table read by the translator against PLY's own table
     yield {'kind': 'grammar', 'text': ''}
     # the generic regex matcher against Python's `re`
-    for c in _regex_cases(ctx, ctx.pick(500, 8000)):
+    for c in _regex_cases(ctx, ctx.pick(400, 8000)):
         yield c
     # time families first: a super-linear rule shows up on them at once (and would slow every later case)
     for c in _time_cases(ctx):
@@ -337,7 +338,7 @@ def generate(ctx):
             yield c
     # totality
     rng = ctx.rng.fork('total')
-    n_tot = ctx.pick(7000, 100000)
+    n_tot = ctx.pick(6000, 100000)
     for i in range(n_tot):
         r = rng.fork(i)
         k = r.random()
